@@ -1,4 +1,4 @@
-CONSTANTS Alphabet = {0, 1, 2, 3, 76, 77, 171, 172}  MaxLen = 6
+CONSTANTS Alphabet = {0, 1, 2, 76, 77, 171, 172}  MaxLen = 6
 SPECIFICATION Spec
 INVARIANTS WalkIsFilter Parsing Accounting Algebra PushIsAtomic
 CHECK_DEADLOCK FALSE
